@@ -32,8 +32,8 @@ func Main(c *run.Ctx) {
 		"rendered to text and parsed/planned by qryn; databases of 1–8 series × 0–30 samples with hostile label values and lines, samples at the window edges and of the metric type; " +
 		"distinct key = query shape (literals abstracted) × limit class × direction × cluster; violations are minimised by deleting stages/matchers and signed with the minimal failing shape")
 	c.Assume("ClickHouse semantics = E-CHSQL (DESIGN Appendix A); LogQL semantics = DESIGN Appendix E, judged cases constructed so that every reasonable reading agrees, others are probes")
-	total := c.Pick(500, 30000)
-	per := c.Pick(250, 3000)
+	total := c.Pick(3000, 120000)
+	per := c.Pick(1000, 6000)
 	RunChildren(c, "C07", total, per)
 	c.Floor("queries whose result was compared row by row", total*6/10, 0)
 	c.Floor("non-empty expected results", total/5, 0)
